@@ -12,6 +12,8 @@ import DfModel.Mech.Streaming
               at every checkpoint c ≤ |out op (take m rows)|            — correct for the input seen;
               at every checkpoint c ≥ |out op (take (m - slack) rows)|  — progress.
       `unsupported` for shapes that are not `covered`.
+    `held (bs lo rows)` → number of rows `FilterExec` (batch size bs, predicate v >= lo) has handed on
+        after the input `rows` (only completed batches leave its output coalescer)
     `props plan` → pre-order list of declared `(boundedness:emission)` and the sanity verdict
         plan := (stream t|f) | (mem) | (pass plan) | (limit plan) | (sort sat fetch plan)
               | (agg linear plan) | (wagg plan) | (union plan*) | (cross plan plan)
@@ -102,6 +104,10 @@ def handle (op : String) (arg : Sexp) : String :=
     | some o, some rs, some sl, some cps, some dl =>
       if covered o then judge o rs sl cps dl else "unsupported"
     | _, _, _, _, _ => "bad-op"
+  | "held", .list [bs, lo, rs] =>
+    match bs.asNat?, lo.asInt?, rows? rs with
+    | some bs, some lo, some rs => toString (filterDelivered bs lo rs).length
+    | _, _, _ => "bad-op"
   | "props", p =>
     match plan? p with
     | some p => ",".intercalate (preorder p) ++ (if accepted p then "/acc" else "/rej")
